@@ -52,7 +52,7 @@ def run(tier, seed):
     for c in cases:
         kinds[c["kind"] + "/" + c["lang"]] = kinds.get(c["kind"] + "/" + c["lang"], 0) + 1
     nontriv = sum(1 for c in cases if (c["kind"] == "partition" and len(c["all"]) > 1 and len(c["p"]) + len(c["np"]) < len(c["all"]))
-                  or (c["kind"] == "window" and len(c["full"]) > 2) or (c["kind"] == "distinct" and len(c["d"]) < len(c["full"]))
+                  or (c["kind"] in ("window", "uwindow") and len(c["full"]) > 2) or (c["kind"] == "distinct" and len(c["d"]) < len(c["full"]))
                   or (c["kind"] == "count" and c["n"] > 1) or c["kind"] == "union")
     for c in cases:
         if c["kind"] == "partition" and 1 < len(c["all"]) < 8 and len(samples) < 2:
